@@ -274,6 +274,7 @@ def run_config(progs, cfg, tmo, deadline, qjobs=3):
     wit = [("witness-all-finish", U.all_done(K))]
     if 3 in actions:
         wit.append(("witness-operation-runs", U.fired(lambda e: "verif_operation_begin" in e.label and e.panic is None)))
+    if 1 in actions and 3 in actions:
         wit.append(("witness-safepoint_slow-blocks", U.fired(lambda e: "wait_in_safepoint" in B.node_name(e.src) and "Condvar::wait" in e.label)))
     if 2 in actions and 3 in actions:
         wit.append(("witness-park_slow", U.fired(lambda e: "park_slow" in B.node_name(e.src) and e.panic is None)))
@@ -288,14 +289,18 @@ def run_config(progs, cfg, tmo, deadline, qjobs=3):
 
 ALL = (1, 2, 3, 4)
 CONFIGS = {
+    # "core": the configuration must be decided completely, including "no execution is longer than K"
     "quick": [
-        {"name": "2thr-1action", "T": 2, "child": False, "budgets": [1, 1], "actions": (1, 2, 3), "K": 60},
+        {"name": "poll+stw", "T": 2, "child": False, "budgets": [1, 1], "actions": (1, 3), "K": 52, "core": True},
+        {"name": "native+stw", "T": 2, "child": False, "budgets": [1, 1], "actions": (2, 3), "K": 52, "core": True},
     ],
     "thorough": [
-        {"name": "2thr-1action", "T": 2, "child": False, "budgets": [1, 1], "actions": (1, 2, 3), "K": 60},
-        {"name": "2thr-2actions", "T": 2, "child": False, "budgets": [2, 2], "actions": (1, 2, 3), "K": 95},
-        {"name": "2thr+spawn", "T": 3, "child": True, "budgets": [1, 1, 1], "actions": ALL, "K": 85},
-        {"name": "3thr-1action", "T": 3, "child": False, "budgets": [1, 1, 1], "actions": (1, 2, 3), "K": 85},
+        {"name": "poll+stw", "T": 2, "child": False, "budgets": [1, 1], "actions": (1, 3), "K": 52, "core": True},
+        {"name": "native+stw", "T": 2, "child": False, "budgets": [1, 1], "actions": (2, 3), "K": 52, "core": True},
+        {"name": "poll+native+stw", "T": 2, "child": False, "budgets": [1, 1], "actions": (1, 2, 3), "K": 52, "core": True},
+        {"name": "2thr-2actions", "T": 2, "child": False, "budgets": [2, 2], "actions": (1, 2, 3), "K": 85},
+        {"name": "2thr+spawn", "T": 3, "child": True, "budgets": [1, 1, 1], "actions": ALL, "K": 75},
+        {"name": "3thr-1action", "T": 3, "child": False, "budgets": [1, 1, 1], "actions": (1, 2, 3), "K": 75},
     ],
 }
 
@@ -312,7 +317,7 @@ def main(tier):
     t0 = time.time()
     progs = load_progs()
     rep = common.Reporter(PID)
-    tmo = 900 if tier == "quick" else 2400
+    tmo = 1000 if tier == "quick" else 2400
     deadline = t0 + (1500 if tier == "quick" else 3300)
     cfgs = CONFIGS[tier]
     results = list(common.fork_map(_cfg_worker, [(progs, c, tmo, deadline) for c in cfgs], min(len(cfgs), 4)))
